@@ -16,6 +16,64 @@ def digest(*parts: str) -> int:
     return int.from_bytes(h, "big") >> 4
 
 
+INFINITE_ITERATORS = ("count", "cycle", "repeat")
+RE_FUNCS = ("compile", "match", "search", "fullmatch", "sub", "subn", "split", "findall", "finditer")
+MUTATORS = ("append", "extend", "insert", "add", "update", "appendleft")
+
+
+def other_sites(tree, rel):
+    """further sources of unbounded iteration, beside `while` and direct recursion:
+    * calls of itertools.count / cycle / repeat and two-argument iter() (infinite iterators);
+    * every use of the `re` module (backtracking can be super-linear);
+    * `for` loops whose body grows the very collection they iterate over."""
+    out = []
+
+    def qual_of(stack):
+        return ".".join(stack)
+
+    def visit(node, stack):
+        for ch in ast.iter_child_nodes(node):
+            st = stack + [ch.name] if isinstance(ch, (ast.FunctionDef, ast.AsyncFunctionDef, ast.ClassDef)) else stack
+            if isinstance(ch, ast.Call):
+                f = ch.func
+                name = f.id if isinstance(f, ast.Name) else (f.attr if isinstance(f, ast.Attribute) else None)
+                owner = f.value.id if isinstance(f, ast.Attribute) and isinstance(f.value, ast.Name) else None
+                if name in INFINITE_ITERATORS and (isinstance(f, ast.Name) or owner == "itertools") and not (name == "repeat" and len(ch.args) + len(ch.keywords) >= 2):
+                    out.append({"file": rel, "func": qual_of(st), "line": ch.lineno, "kind": "infinite-iterator", "what": ast.unparse(ch)[:80],
+                                "digest": digest(rel, qual_of(st), "iter", ast.dump(ch))})
+                elif name == "iter" and owner is None and len(ch.args) == 2:
+                    out.append({"file": rel, "func": qual_of(st), "line": ch.lineno, "kind": "iter-sentinel", "what": ast.unparse(ch)[:80],
+                                "digest": digest(rel, qual_of(st), "iter2", ast.dump(ch))})
+                elif owner == "re" and name in RE_FUNCS:
+                    out.append({"file": rel, "func": qual_of(st), "line": ch.lineno, "kind": "regex", "what": ast.unparse(ch)[:80],
+                                "digest": digest(rel, qual_of(st), "re", ast.dump(ch))})
+            if isinstance(ch, (ast.For, ast.AsyncFor)) and isinstance(ch.iter, ast.Name):
+                it = ch.iter.id
+                grows = any(isinstance(c, ast.Call) and isinstance(c.func, ast.Attribute) and c.func.attr in MUTATORS
+                            and isinstance(c.func.value, ast.Name) and c.func.value.id == it for b in ch.body for c in ast.walk(b))
+                grows = grows or any(isinstance(c, ast.AugAssign) and isinstance(c.target, ast.Name) and c.target.id == it for b in ch.body for c in ast.walk(b))
+                if grows:
+                    out.append({"file": rel, "func": qual_of(st), "line": ch.lineno, "kind": "for-over-growing-collection", "what": "for … in %s" % it,
+                                "digest": digest(rel, qual_of(st), "forgrow", ast.dump(ch))})
+            visit(ch, st)
+
+    visit(tree, [])
+    for imp in ast.walk(tree):
+        if isinstance(imp, ast.ImportFrom) and imp.module == "re":
+            out.append({"file": rel, "func": "", "line": imp.lineno, "kind": "regex", "what": ast.unparse(imp)[:80], "digest": digest(rel, "", "reimport", ast.dump(imp))})
+    return out
+
+
+def scan_others(repo: Path, pkg: str = "cdd"):
+    out = []
+    for f in sorted((Path(repo) / pkg).rglob("*.py")):
+        rel = str(f.relative_to(repo))
+        if "/tests/" in rel:
+            continue
+        out += other_sites(ast.parse(f.read_text()), rel)
+    return out
+
+
 def scan(repo: Path, pkg: str = "cdd"):
     whiles, recs = [], []
     for f in sorted((Path(repo) / pkg).rglob("*.py")):
@@ -45,7 +103,7 @@ def scan(repo: Path, pkg: str = "cdd"):
     return whiles, recs
 
 
-def to_lean(whiles, recs) -> str:
+def to_lean(whiles, recs, others=()) -> str:
     lines = ["/-! GENERATED by harness/translators/loops.py from /repo — do not edit. -/", "namespace Gen.Loops", ""]
     lines.append("/-- digests of every `while` statement in non-test code -/")
     lines.append("def whileLoops : List Nat := [")
@@ -54,6 +112,10 @@ def to_lean(whiles, recs) -> str:
     lines.append("/-- digests of every directly self-recursive function in non-test code -/")
     lines.append("def recursiveFns : List Nat := [")
     lines.append("\n".join("  %d%s  -- %s:%d %s" % (r["digest"], "," if k + 1 < len(recs) else "", r["file"], r["line"], r["func"]) for k, r in enumerate(recs)))
+    lines.append("]")
+    lines.append("/-- digests of the other sources of unbounded iteration: infinite iterators, two-argument iter(), uses of `re`, `for` over a collection grown in the body -/")
+    lines.append("def otherSites : List Nat := [")
+    lines.append("\n".join("  %d%s  -- %s:%d %s  [%s] %s" % (o["digest"], "," if k + 1 < len(others) else "", o["file"], o["line"], o["func"], o["kind"], o["what"].replace("\n", " ")) for k, o in enumerate(others)))
     lines.append("]")
     lines.append("end Gen.Loops")
     return "\n".join(lines) + "\n"
